@@ -851,7 +851,7 @@ func (g *gen) lookupOp() {
 		g.do("loc " + vx.Hex(g.key()))
 	case x < 34:
 		k := g.key()
-		if g.r.Chance(4) {
+		if g.r.Chance(20) {
 			k = nil // the point at +inf (reverse scan without upper bound)
 		}
 		g.do("locend " + vx.Hex(k))
@@ -931,6 +931,21 @@ func (g *gen) oneCase(n int, nops int) {
 		if strings.HasPrefix(out, "ok") {
 			g.nTopo++
 		}
+	}
+	if shape == 1 && g.r.Chance(60) {
+		// LocateEndKey("") against a cold, warm, invalidated and reload-marked last region
+		st := pdState(g.w.live)
+		last := st[len(st)-1]
+		g.do("locend -")
+		g.do("dump")
+		g.do("locend -")
+		if g.r.Bool() {
+			g.do(fmt.Sprintf("inval %d", last.id))
+		} else {
+			g.do(fmt.Sprintf("needreload %d", last.id))
+		}
+		g.do("locend -")
+		g.do("dump")
 	}
 	if shape == 0 {
 		// partially warm cache: locate a few region starts, then queries
